@@ -87,8 +87,14 @@ def correspond(ctx, scale):
             m = torch.tensor([[j < L for j in range(nn_)] for L in (2, 4)])
             kwargs['mask'] = m
         st = torch.get_rng_state()
-        with torch.no_grad():
+        # process-wide torch settings around the call (vlib/callzoo.ambient: deterministic-algorithms mode, another default dtype): the reported losses
+        # are a function of the arguments and the module, whatever the ambient settings are
+        from vlib import callzoo
+        amb_kind = ['none', 'deterministic', 'default-float64'][(ci // 5) % 3]      # (under a bfloat16 default the loss accumulator itself is bfloat16: equal only to that precision)
+        dist['ambient_' + amb_kind] = dist.get('ambient_' + amb_kind, 0) + 1
+        with torch.no_grad(), callzoo.ambient(torch, amb_kind):
             out, idx, loss, bd = vq(x, **kwargs)
+        with torch.no_grad():
             # documented formulas, recomputed from inputs / codebook / indices
             xin = vq.project_in(x).reshape(b, nn_, heads, d)
             if cosine:
